@@ -944,6 +944,9 @@ func (vc *FuncVC) loopCut(st *State, li *loopInfo, prev *ssa.BasicBlock, phis []
 		} else {
 			vc.checkClauses(st, env, ls.Invariants, kind+".inv-preserved")
 		}
+		if os.Getenv("GOVC_PROBE") != "" {
+			st.oblige(kind+".inv-preserved[probe-false]", "false", "false (vacuity probe: the back edge must be reachable)")
+		}
 		fg := vc.frameGoals(st, sortedKeys(li.writes))
 		for _, h := range sortedKeys(fg) {
 			st.oblige(kind+".frame["+h+"]", fg[h], "loop frame of heap "+h)
